@@ -59,6 +59,12 @@ REVIEWED = {
 
 
 def check(run):
+    from . import detectors as _DN
+    _DN.ob_new_fields(run, "O17.10", ['disseminator::rotor::sampling_strategy', 'disseminator::turbine::weighted_shuffle'], 'a sampler may depend on the validator set and the supplied RNG only: a new field read while sampling is further state')
+    from . import detectors as _DC
+    _DC.ob_narrowing_casts(run, "O17.9", ['disseminator::'], 'validator indices and seat counts: a truncated index selects another validator')
+    from . import detectors as _DL
+    _DL.ob_loop_exits(run, "O17.8", ['disseminator::rotor::sampling_strategy', 'disseminator::turbine::weighted_shuffle'], 'committee assembly loops fill every seat: a loop that stops early yields a short committee')
     prog = run.program("lib")
 
     # ------------------------------------------------------------------ O17.1
@@ -71,6 +77,21 @@ def check(run):
             if rv["k"] == "tls":
                 tls.append((fshort(b.defpath), sp))
     o.check(not tls, "sampling_strategy|no-thread-locals", "no thread-local is referenced in sampling_strategy", "", {"sites": tls})
+    # ... nor state shared between the clones of a sampler: interior-mutable fields (the decay counters) are owned, never behind Arc / Rc /
+    # a static reference - a clone handed to another task must not see (or reset) this instance's counters
+    import re as _re
+    shared = []
+    nadts = 0
+    for d, r in sorted(prog.adts.items()):
+        if not d.startswith(SS) and not d.startswith(D + "turbine::weighted_shuffle::"):
+            continue
+        nadts += 1
+        for v in r["variants"]:
+            for f in v["fields"]:
+                ty = f["ty"]
+                if _re.search(r"(Arc|Rc)<.*(Mutex|RwLock|Atomic|Cell|OnceLock)", ty) or _re.search(r"&'static\s+(std::sync|core::cell|.*Mutex|.*Atomic)", ty):
+                    shared.append("%s.%s: %s" % (fshort(d), f["name"], ty.replace("alpenglow::", "")[:70]))
+    o.check(not shared and nadts >= 5, "sampling_strategy|no-shared-interior-state", "no sampler field holds interior-mutable state behind Arc / Rc / 'static (%d types examined)" % nadts, "", {"fields": shared[:4]})
 
     # ------------------------------------------------------------------ O17.2
     o = run.ob("O17.2", "DecayingAcceptanceSampler::sample_quorum resets the per-committee counters on every path",
